@@ -118,6 +118,166 @@ def var_id(x, scope=None, _depth=0):
         return x["id"]
     return None
 
+# ---- evaluate_operator read as a function: values against the reference run-time semantics
+SAMPLES = {
+    "Int32": [-2147483648, -7, -1, 0, 1, 2, 5, 31, 33, 2147483647],
+    "UInt32": [0, 1, 2, 5, 31, 33, 4294967288, 4294967295],
+    "IntLiteral": [-7, -1, 0, 1, 2, 5, 40],
+    "Bool": [False, True],
+    "Float32": [-1.5, 0.0, 1.5, float("inf"), float("nan")],
+    "Float64": [-1.5, 0.0, 2.25, float("nan")],
+    "FloatLiteral": [-1.5, 0.0, 2.25],
+    "Int64": [-5, 0, 7],
+    "UInt64": [0, 7, 9],
+}
+
+
+def _w(kind, v):
+    if kind == "Int32":
+        v &= 0xFFFFFFFF
+        return v - (1 << 32) if v >= (1 << 31) else v
+    if kind == "UInt32":
+        return v & 0xFFFFFFFF
+    return v
+
+
+def _tdiv(a, b):
+    return abs(a) // abs(b) * (1 if (a >= 0) == (b >= 0) else -1)
+
+
+def reference(op, kind, a, b):
+    """Run-time meaning of `a op b` on operands of one kind -> ('val', result kind, value) | ('refuse',) the evaluator
+    must not produce a value | None (no opinion: either refusing or any documented behaviour is acceptable)."""
+    ints = kind in INT_KINDS
+    if op in ("Add", "Subtract", "Multiply") and ints:
+        return ("val", kind, _w(kind, {"Add": a + b, "Subtract": a - b, "Multiply": a * b}[op]))
+    if op in ("Divide", "Modulus") and ints:
+        if b == 0:
+            return ("refuse",)
+        if kind == "Int32" and a == -2147483648 and b == -1:
+            return None
+        return ("val", kind, _tdiv(a, b) if op == "Divide" else a - _tdiv(a, b) * b)
+    if op in ("LeftShift", "RightShift") and kind in ("Int32", "UInt32"):
+        sh = b & 31
+        return ("val", kind, _w(kind, a << sh) if op == "LeftShift" else (a >> sh))
+    if op in ("LeftShift", "RightShift") and kind == "IntLiteral":
+        if not 0 <= b < 64:
+            return None
+        return ("val", kind, a << b if op == "LeftShift" else a >> b)
+    if op in ("BitwiseAnd", "BitwiseOr", "BitwiseXor") and ints:
+        return ("val", kind, _w(kind, {"BitwiseAnd": a & b, "BitwiseOr": a | b, "BitwiseXor": a ^ b}[op]))
+    if op in ("BooleanAnd", "BooleanOr") and kind == "Bool":
+        return ("val", "Bool", (a and b) if op == "BooleanAnd" else (a or b))
+    if op in CMP or op in ("Equality", "Inequality"):
+        r = {"LessThan": a < b, "LessEqual": a <= b, "GreaterThan": a > b, "GreaterEqual": a >= b, "Equality": a == b, "Inequality": a != b}[op]
+        return ("val", "Bool", r)
+    if op == "Minus":
+        if kind in ("Int32", "IntLiteral"):
+            return ("val", kind, _w(kind, -a))
+        if kind.startswith("Float"):
+            return ("val", kind, -a)
+        return None
+    if op == "Plus":
+        return ("val", kind, a)
+    if op == "LogicalNot" and kind == "Bool":
+        return ("val", "Bool", not a)
+    if op == "BitwiseNot" and ints:
+        return ("val", kind, _w(kind, ~a))
+    return None
+
+
+def rule_op_eval(chk, ev):
+    """evaluate_operator walked by the finite-map reader on literal operands (every operator x constant kind x sample
+    values, plain and enum-wrapped) against `reference`. A folded value must be the run-time value; where the run-time
+    operation has no value (division by zero) nothing may be folded. Refusing to fold is always allowed. True when
+    readable."""
+    import interp as I
+    import math
+    f = chk.facts
+    ip = I.Interp(f, max_depth=10, extern={})
+    mod = I.Opaque("module")
+
+    def lit(kind, v, enum=False):
+        c = I.Enum("Constant", kind, {"0": v})
+        if enum:
+            c = I.Enum("Constant", "Enum", {"0": I.Enum("EnumId", None, {"0": 0}), "1": c})
+        return I.Enum("Expression", "Literal", {"0": c})
+
+    def has_opaque(v):
+        if isinstance(v, I.Opaque):
+            return True
+        if isinstance(v, I.Enum):
+            return any(has_opaque(x) for x in v.fields.values())
+        return False
+
+    def same(x, y):
+        if isinstance(x, float) and isinstance(y, float) and math.isnan(x) and math.isnan(y):
+            return True
+        return type(x) == type(y) and x == y or (isinstance(x, (int, float)) and isinstance(y, (int, float)) and not isinstance(x, bool) and not isinstance(y, bool) and x == y)
+
+    ops_bin = list(BIN) + list(LOGIC) + list(CMP) + ["Equality", "Inequality"]
+    ops_un = list(UN) + ["Plus"]
+    folds = 0
+    entries = 0
+    seen = set()
+    enum_bad = None
+    for op in ops_bin + ops_un:
+        binary = op in ops_bin
+        for kind, vals in SAMPLES.items():
+            for enum in ((False, True) if kind in ("Int32", "UInt32") else (False,)):
+                bad = None
+                folded = 0
+                pairs = [(a, b) for a in vals for b in vals] if binary else [(a, None) for a in vals]
+                for a, b in pairs:
+                    args = [lit(kind, a, enum)] + ([lit(kind, b, enum)] if binary else [])
+                    try:
+                        r = ip.apply(ev, [I.Enum("IntrinsicOp", op), args, mod])
+                    except I.Unknown as e:
+                        if "panicking" in str(e):
+                            continue        # an abort is C08's subject; no value was folded
+                        return False
+                    if has_opaque(r) or not isinstance(r, I.Enum):
+                        return False
+                    want = reference(op, kind, a, b)
+                    if r.variant == "Err":
+                        continue
+                    c = r.fields["0"]
+                    folded += 1
+                    wrapped = isinstance(c, I.Enum) and c.variant == "Enum"
+                    inner = c.fields["1"] if wrapped else c
+                    if enum:
+                        must_wrap = want is not None and want[0] == "val" and want[1] != "Bool"
+                        if want is not None and want[0] == "val" and wrapped != must_wrap:
+                            enum_bad = enum_bad or "%s on enum operands gives %s: the enum wrapper must be kept for arithmetic and dropped for comparisons" % (op, c)
+                    what = "%s %s %s" % (a, op, b) if binary else "%s %s" % (op, a)
+                    if want is None:
+                        continue
+                    if want[0] == "refuse":
+                        bad = bad or "%s (%s) is folded to %s; the operation has no value" % (what, kind, inner)
+                    elif not (isinstance(inner, I.Enum) and inner.variant == want[1] and same(inner.fields.get("0"), want[2])):
+                        bad = bad or "%s (%s) is folded to %s; at run time it is %s(%s)" % (what, kind, inner, want[1], want[2])
+                if folded and not enum:
+                    entries += 1
+                    seen.add(op)
+                    key = "C13.op/%s/%s" % (op, "x".join([kind] * (2 if binary else 1))) if op not in ("Equality", "Inequality") else "C13.op/%s/%s" % (op, kind)
+                    chk.ob(key, bad is None, "%d sample operands: every folded value is the run-time value" % len(pairs) if bad is None else bad, where(ev),
+                           sample={"op": op, "kind": kind, "samples": len(pairs), "folded": folded})
+                elif folded and bad:
+                    chk.ob("C13.op/%s/enum-%s" % (op, kind), False, bad + " (enum-wrapped operands)", where(ev))
+                folds += folded
+    for op in ("Equality", "Inequality"):
+        chk.ob("C13.op/%s" % op, True, "decided per constant kind by the evaluated table", where(ev), trivial=True)
+    for op in ops_bin + ops_un:
+        chk.ob("C13.op/%s/present" % op, op in seen, "operator folds constants" if op in seen else
+               "IntrinsicOp::%s never folds (falls into `_ => Err`)" % op, where(ev), trivial=True)
+        if op not in ("Equality", "Inequality"):
+            chk.ob("C13.op/%s/operands" % op, True, "operand order is decided by the evaluated table (asymmetric samples)", where(ev), trivial=True)
+    chk.ob("C13.op/enum-rewrap", enum_bad is None, "enum operands: wrapper kept for arithmetic, dropped for the comparisons" if enum_bad is None else enum_bad, where(ev))
+    chk.floor("C13.floor/op-table", entries, 104, "operator x kind entries of evaluate_operator that fold", where(ev))
+    chk.note("C13.op: %d operator x kind entries fold, %d folded sample evaluations compared with the reference" % (entries, folds))
+    return True
+
+
 
 def run(chk):
     f = chk.facts
@@ -125,7 +285,10 @@ def run(chk):
     ec = chk.anchor("C13.anchor/evaluate_cast", f.fn("evaluate_cast", TY), "evaluate_cast")
     ecx = chk.anchor("C13.anchor/evaluate_constexpr", f.fn("evaluate_constexpr", TY), "evaluate_constexpr")
     if ev:
-        rule_op(chk, ev)
+        if not rule_op_eval(chk, ev):
+            rule_op(chk, ev)
+        else:
+            rule_op(chk, ev, only=set(INCDEC))
         rule_wrap(chk, ev, "evaluate_operator")
     if ec:
         rule_cast(chk, ec)
@@ -157,7 +320,8 @@ def scrutinee_indices(scrut):
     return [idx(s)]
 
 
-def rule_op(chk, ev):
+def rule_op(chk, ev, only=None):
+    """shape rule; with `only`, restricted to those operators (the others were decided by rule_op_eval)"""
     m = outer_match(ev, "IntrinsicOp")
     if not chk.anchor("C13.anchor/op-match", m, "match over IntrinsicOp in evaluate_operator", where(ev)):
         return
@@ -167,6 +331,8 @@ def rule_op(chk, ev):
         alts = [F.pat_variant(a) for a in F.pat_alternatives(arm["pat"])]
         ops = [a[1] for a in alts if a]
         for op in ops:
+            if only is not None and op not in only:
+                continue
             seen_ops.add(op)
             body = F.strip(arm["body"])
             if op in ("Equality", "Inequality"):
@@ -203,9 +369,11 @@ def rule_op(chk, ev):
                     o = operation_of(res[2].get("0", {})) if "0" in res[2] else ("other",)
                     ok, why = judge(op, kind, res[1], o, binds, ia["body"])
                     chk.ob(key, ok, why, where(ev, ia), sample={"op": op, "kind": kind, "result": res[1], "rust": str(o[:2])})
-    for op in list(BIN) + list(LOGIC) + list(CMP) + list(UN) + ["Equality", "Inequality", "Plus"] + list(INCDEC):
+    for op in (list(BIN) + list(LOGIC) + list(CMP) + list(UN) + ["Equality", "Inequality", "Plus"] + list(INCDEC)) if only is None else sorted(only):
         chk.ob("C13.op/%s/present" % op, op in seen_ops, "operator has an evaluator arm" if op in seen_ops else
                "no evaluator arm for IntrinsicOp::%s (falls into `_ => Err`)" % op, where(ev), trivial=True)
+    if only is not None:
+        return
     chk.floor("C13.floor/op-table", n_entries, 92, "operator x kind entries of evaluate_operator", where(ev))
     # enum re-wrap is dropped exactly for the six comparisons
     cmp_set = set()
